@@ -15,7 +15,7 @@ TARGETS = ['C07/Props.vo', 'C07/Corr.vo']
 MODEL_TARGETS = ['C07/Corr.vo']
 PROPS_FILE = 'C07/Props.v'
 PROPS_MODULE = 'QV.C07.Props'
-CORR_IMPORTS = ['QV.C07.Model', 'QV.C07.Spec', 'QV.C07.Corr']
+CORR_IMPORTS = ['QV.C07.Model', 'QV.C07.Spec', 'QV.C07.Embed', 'QV.C07.Corr']
 CHECK_CORR = 'check_corr'
 CHECK_SPEC = 'check_spec'
 SHARD = 60
@@ -371,7 +371,7 @@ def _forest_run(case, params, np):
     for j, k in enumerate(f['roots']):
         tree = G.expand(pool[k], pool)
         for q in QUERIES:
-            if q == 'program' and not any(h[1] == 'program' and h[0] == j for h in f['history']):
+            if q in ('program', 'pad') and not any(h[1] == q and h[0] == j for h in f['history']):
                 continue
             fresh[j, q] = _query(build(tree), q, params)       # a fresh, unshared object per query
         o = obs[j]
@@ -527,10 +527,12 @@ def g_pt(t, nm):
         return '(Par %s %s)' % (g_pt(t['b'], nm), g_list('(%s, %s)' % (g_chan(c), g_list(g_expr(x, nm) for x in cf))
                                                           for c, cf in t['ov'].items()))
     if k in ('arithl', 'arithr') and ('allt' in t['s'] or 'mapt' in t['s']):
-        # time dependent scalar (+ / - only): embedded as pulse-with-pulse arithmetic, see Corr.arith_tl
+        # time dependent scalar: + / - embedded as pulse-with-pulse arithmetic (Corr.arith_tl), * over const/func as a product
         s = t['s']
         cfs = {c: s['allt'] for c in G.out_channels(t['b'])} if 'allt' in s else s['mapt']
         gl = g_list('(%s, %s)' % (g_chan(c), g_list(g_expr(x, nm) for x in cf)) for c, cf in cfs.items())
+        if t['op'] == '*':          # over a constant / polynomial atom: the product polynomial (Corr.arith_tm)
+            return '(arith_tm %s %s)' % (g_pt(t['b'], nm), gl)
         if k == 'arithl':
             return '(arith_tl %s %s %s)' % (g_pt(t['b'], nm), OPS[t['op']], gl)
         return '(arith_tr %s %s %s)' % (gl, OPS[t['op']], g_pt(t['b'], nm))
